@@ -35,7 +35,7 @@ def run(ctx):
         ctx.floor("cursor-discipline", coverage.read_cursor(ctx, cfg) + coverage.write_cursor(ctx, cfg), 5, cfg)
         spec_templates.run_templates(ctx, cfg, names=("encrypt_and_mix_hash", "decrypt_and_mix_hash", "SymmetricState::mix_hash", "CipherState::encrypt_ad", "CipherState::decrypt_ad"))
         aead.check_wrappers(ctx, cfg, {"operands": 1})
-        ctx.floor("error-discipline", coverage.error_discipline(ctx, cfg), 90 if cfg in ("A", "B", "C", "E") else 72, cfg)
+        ctx.floor("error-discipline", coverage.error_discipline(ctx, cfg), 84 if cfg in ("A", "B", "C", "E") else 68, cfg)
         fn = F.one_fn("handshakestate::HandshakeState::_read_message")
         G = ctx.guards(cfg, fn)
         finals = [b for b, t in fn.calls() if (t["callee"].get("def") or "").endswith("SymmetricState::decrypt_and_mix_hash") and any(e[3] == b for e in tr.get("epilogue", []))]
